@@ -47,9 +47,13 @@ Inductive op :=
 | Start
 | Stop
 | Rep (r : report)
-| Check (now : Z) (dist : Q).   (* timer callback at clock `now`; dist = metres
+| Check (now : Z) (dist : Q)    (* timer callback at clock `now`; dist = metres
                                   between the current report and the position of
                                   the last CAM (only read when both exist) *)
+| CheckFail (now : Z).          (* timer callback at clock `now` at which no CAM can be
+                                  handed over: the construction / encoding of a CAM from
+                                  the current report fails or the lower layer raises
+                                  (Annex B.2.5: the transmission is skipped) *)
 
 Inductive out :=
 | Cam (time : Z) (lf : bool) (gdt : Z) (rid : Z).
@@ -171,6 +175,8 @@ Definition step (p : params) (s : st) (o : op) : st * list out :=
   | Stop => (stop s, [])
   | Rep r => (set_tpv s r, [])
   | Check now dist => if active s then evaluate p s now dist else (s, [])
+  | CheckFail _ => (s, [])      (* no CAM, and nothing of the bookkeeping advances:
+                                   _update_send_state only runs after a successful hand-over *)
   end.
 
 Fixpoint run (p : params) (s : st) (ops : list op) : st * list out :=
@@ -190,6 +196,8 @@ Fixpoint run (p : params) (s : st) (ops : list op) : st * list out :=
                3 now ref dn dd                     Check; ref = id of the report whose
                                                    position the harness measured dist from
                                                    (-1: none)
+               4 now                               CheckFail (a check at which the encoder or the
+                                                   lower layer was seen to refuse the CAM)
    result:     for every CAM   1 opindex time lf gdt rid t_gen n_cnt
                desync          2 opindex expected_ref    (the harness measured the distance
                                                    from another report than the model's last
@@ -225,6 +233,7 @@ Fixpoint drive (p : params) (fuel : nat) (idx : Z) (s : st) (a : list Z) : list 
         | [] => drive p fuel' (idx + 1) s1 rest
         end
       else [2; idx; match last_pos s with Some i => i | None => -1 end]
+    | 4 :: now :: rest => drive p fuel' (idx + 1) (fst (step p s (CheckFail now))) rest
     | _ => [3; idx]
     end
   end.
